@@ -526,3 +526,57 @@ def _qualifier(idx):
     if isinstance(idx, tuple) and idx and idx[0] == "c":
         return "lit"
     return "other:" + s[:40]
+
+
+def query_names(rep, ex: Explorer, cls=CI):
+    """KEY.no-reserved on the query's minimum variables: with the mv_/mf_ family named by base keys, the query's own
+    variables must carry an index that no base key can equal."""
+    qual = f"{cls}.compile_and_encode_query"
+    site = fn_label(ex.prog, qual)
+
+    def setup(I):
+        s, es = _mk(I, cls)
+        return [s, make_query(), Sym("deadline")], {}
+
+    paths = ex.run(qual, setup, summaries=_summ(), key="caeq", hooks=RC2_HOOKS)
+    # how is the family keyed at its other sites?  (encoding: mv_{key})
+    n = 0
+    for p in paths:
+        if p.outcome[0] != "return":
+            continue
+        rv = p.outcome[1]
+        csp = rv.items[0] if isinstance(rv, TupleV) and rv.items else rv
+        quals = _name_qualifiers(view(p.state, csp))
+        for prefix in ("mv_", "mf_"):
+            if prefix in quals or any(k.startswith(prefix[:2]) for k in quals):
+                pass
+        lits = _literal_names(view(p.state, csp))
+        for nm in lits:
+            if nm.startswith("mv_") or nm.startswith("mf_"):
+                idx = nm.split("_", 1)[1]
+                n += 1
+                is_int = idx.lstrip("-").isdigit()
+                rep.check(not is_int, "KEY.no-reserved", site, f"query variable {nm}", "the query's minimum variables cannot coincide with the variables mv_<key>/mf_<key> of a conditional (integer keys)",
+                          extracted=nm, required="a non-integer index", function=site)
+    rep.floor("query minimum variables", n, 1)
+
+
+def _literal_names(x, acc=None):
+    if acc is None:
+        acc = set()
+    from ..absvals import FormulaV
+
+    def visit(t):
+        if isinstance(t, FormulaV):
+            visit(t.f)
+        elif isinstance(t, LinV):
+            visit(t.lin)
+        elif isinstance(t, tuple):
+            if len(t) == 2 and t[0] == "isym" and isinstance(t[1], tuple) and t[1][0] == "c" and isinstance(t[1][1], str):
+                acc.add(t[1][1])
+                return
+            for i in t:
+                visit(i)
+
+    visit(x)
+    return acc
